@@ -38,10 +38,10 @@ ASSUMPTIONS = [
 
 BOUNDS = {
     'quick': [dict(A=1, S=3, Lmax=4), dict(A=2, S=2, Lmax=2), dict(A=2, S=2, Lmin=3, Lmax=3, shell=False), dict(A=1, S=2, Lmin=5, Lmax=6, shell=False)],
-    'thorough': [dict(A=1, S=3, Lmax=6), dict(A=2, S=2, Lmax=4), dict(A=1, S=2, Lmin=5, Lmax=8, shell=False), dict(A=2, S=2, Lmin=5, Lmax=5, shell=False)],
+    'thorough': [dict(A=1, S=3, Lmax=5), dict(A=2, S=2, Lmax=3), dict(A=1, S=2, Lmin=5, Lmax=8, shell=False), dict(A=2, S=2, Lmin=4, Lmax=4, shell=False), dict(A=1, S=3, Lmin=6, Lmax=6, shell=False)],
 }
 SPLIT_LMAX = {'quick': 40, 'thorough': 120}
-CAPS = {'thorough': 1500}
+CAPS = {'thorough': 2400}
 M6 = (np.eye(3) * 6.0).tolist()
 
 
